@@ -19,6 +19,7 @@ import (
 	"encoding/json"
 	"flag"
 	"fmt"
+	"go/ast"
 	"go/token"
 	"go/types"
 	"os"
@@ -67,6 +68,8 @@ func newScanner(repo string, pkgs []*packages.Package) (*scanner, error) {
 		inScope: map[string]bool{}, pkgPaths: map[string]bool{}, funcNode: map[*types.Func]*node{},
 		flowNodes: map[*types.Var][]*node{}, flowSlots: map[*types.Var][]*types.Var{}, slotEsc: map[*types.Var]token.Pos{},
 		bcastArgs: map[*types.Var]bool{}, locs: map[string]*locInfo{},
+		fdOfFunc: map[*types.Func]*funcInfo{}, fdOfNode: map[*node]*funcInfo{}, retFresh: map[*types.Func]int{},
+		helperVisits: map[ast.Node][]helperVisit{}, descents: map[*node]map[*ast.CallExpr]bool{},
 	}
 	for _, f := range scanFiles {
 		sc.inScope[filepath.Join(repo, f)] = true
@@ -104,8 +107,12 @@ func newScanner(repo string, pkgs []*packages.Package) (*scanner, error) {
 		return nil, fmt.Errorf("found %d of the %d files to scan under %s", found, len(scanFiles), repo)
 	}
 	for _, p := range pkgs {
-		sc.scanPackage(p)
+		sc.declare(p)
 	}
+	for _, fi := range sc.funcs {
+		sc.scanFunc(fi)
+	}
+	sc.objFlowAll()
 	sc.resolve()
 	return sc, nil
 }
